@@ -28,9 +28,9 @@ func genC10(t *testing.T) {
 			}
 		}})
 	}
-	pars := []int{1, 2, 3, 4, 5, 8}
+	pars := []int{1, 2, 3, 4, 5, 8, 16}
 	if common.Thorough() {
-		pars = append(pars, 16, 64)
+		pars = append(pars, 33, 64)
 	}
 	i := 0
 	for _, mon := range c10Monoids {
